@@ -478,6 +478,15 @@ func readDnsMsgFromBufio(reader *bufio.Reader, timeout time.Duration, conn net.C
 	// Compute the frame length in int: in uint16 arithmetic 2+length wraps for
 	// length >= 0xfffe, Peek(0|1) then succeeds and fullData[2:] panics.
 	frameLen := 2 + int(length)
+	if frameLen > reader.Size() {
+		// Peek can never return more than the reader's buffer holds: it would
+		// wait for the buffer to fill or for the detection deadline, report
+		// ErrBufferFull either way and, when the deadline ended it, leave that
+		// timeout stored in the reader, where the first Read of the relay
+		// phase finds it and cuts a healthy connection. A frame of this size
+		// cannot be handled here; say so at once.
+		return nil, 0, fmt.Errorf("DNS message too large for the detection buffer: %d bytes (buffer %d)", frameLen, reader.Size())
+	}
 	fullData, err := reader.Peek(frameLen)
 	if err != nil {
 		return nil, 0, err
